@@ -92,9 +92,10 @@ class Canon:
                     items.append((kk, self.walk(v, cf)))
             return ("dict", n, tuple(items))
         if t in (list, tuple) or isinstance(o, (list, tuple)):
-            if ctx_file is not None and t is tuple and len(o) == 2 and all(type(x) is int for x in o) and o[1] > 10 ** 17:
-                # recorded (size, mtime_ns) of the file, whatever the field is called
-                return ("filemeta", self.meta_state(ctx_file, o))
+            if ctx_file is not None and isinstance(o, tuple) and len(o) == 2 and all(type(x) is int for x in o) \
+                    and max(o) > 10 ** 17:
+                # recorded (size, mtime_ns) of the file - in either order, plain or named tuple, whatever the field is called
+                return ("filemeta", self.meta_state(ctx_file, (min(o), max(o))))
             return (t.__name__, n, tuple(self.walk(v, ctx_file) for v in o))
         if t in (set, frozenset):
             return (t.__name__, n, tuple(sorted(repr(self.walk(v)) for v in o)))
